@@ -9,6 +9,7 @@ from pytorch_wavelets.dtcwt.transform_funcs import INV_J1, INV_J2PLUS
 from pytorch_wavelets.dtcwt.transform_funcs import get_dimensions6
 from pytorch_wavelets.dwt.lowlevel import mode_to_int
 from pytorch_wavelets.dwt.transform2d import DWTForward, DWTInverse
+from pytorch_wavelets._verif import point as _vp
 
 
 def pm(a, b):
@@ -114,6 +115,7 @@ class DTCWTForward(nn.Module):
         # If the row/col count of X is not divisible by 2 then we need to
         # extend X
         r, c = x.shape[2:]
+        _vp('DTCWTForward.extend2', rows=r, cols=c, ext_rows=r % 2 != 0, ext_cols=c % 2 != 0)
         if r % 2 != 0:
             x = torch.cat((x, x[:,:,-1:]), dim=2)
         if c % 2 != 0:
@@ -129,6 +131,7 @@ class DTCWTForward(nn.Module):
         for j in range(1, self.J):
             # Ensure the lowpass is divisible by 4
             r, c = low.shape[2:]
+            _vp('DTCWTForward.extend4', level=j+1, rows=r, cols=c, ext_rows=r % 4 != 0, ext_cols=c % 4 != 0)
             if r % 4 != 0:
                 low = torch.cat((low[:,:,0:1], low, low[:,:,-1:]), dim=2)
             if c % 4 != 0:
@@ -232,6 +235,7 @@ class DTCWTInverse(nn.Module):
                 # Ensure the low and highpass are the right size
                 r, c = low.shape[2:]
                 r1, c1 = s.shape[h_dim], s.shape[w_dim]
+                _vp('DTCWTInverse.crop', level=j+1, rows=r, cols=c, hp_rows=r1, hp_cols=c1, crop_rows=r != r1 * 2, crop_cols=c != c1 * 2)
                 if r != r1 * 2:
                     low = low[:,:,1:-1]
                 if c != c1 * 2:
@@ -244,6 +248,7 @@ class DTCWTInverse(nn.Module):
         if highs[0] is not None and highs[0].shape != torch.Size([]):
             r, c = low.shape[2:]
             r1, c1 = highs[0].shape[h_dim], highs[0].shape[w_dim]
+            _vp('DTCWTInverse.crop', level=1, rows=r, cols=c, hp_rows=r1, hp_cols=c1, crop_rows=r != r1 * 2, crop_cols=c != c1 * 2)
             if r != r1 * 2:
                 low = low[:,:,1:-1]
             if c != c1 * 2:
